@@ -942,3 +942,26 @@ Example concurrent_scan_ex :
     [([1], Some [10]); ([2], Some [20]); ([3], Some [30]); ([4], Some [40]); ([4; 4], Some [44]); ([5], Some [50])] /\
   h_valid (fst (cscan src_iter [m; t] steps)) = false.
 Proof. vm_compute. split; reflexivity. Qed.
+
+(* ------------------------------------------------------------------------------------ *)
+(* Part J: Seek of the range iterator, with the repaired BoundedIterator.Seek              *)
+(* ------------------------------------------------------------------------------------ *)
+
+Lemma Xrng : forall lo hi, ExactSeek (eng_range_it lo hi) eng_ok (rng_content lo hi) (rng_rest lo hi).
+Proof.
+  intros lo hi. exact (bounded_exact eng_it eng_ok eng_content eng_rest Leng eng_strict Xeng lo hi eq_refl).
+Qed.
+
+(* wherever the range iterator stands (here: after SeekToFirst), Seek positions it on the least
+   key >= target of the range, and leaves it invalid when there is none *)
+Theorem eng_range_seek_exact : forall c ops lo hi t, lost_log (run c ops) = false ->
+  least_ge (filter (fun x => in_range lo hi (fst x)) (spec_view (acked (init c) ops))) t
+           (pos (eng_range_it lo hi) (fst (i_seek (eng_range_it lo hi) t
+                                             (i_first (eng_range_it lo hi) (eng_iter (run c ops)))))).
+Proof.
+  intros c ops lo hi t Hl. destruct (run_facts c ops Hl) as (h & I & Eh & Hok).
+  destruct (L_first _ _ _ _ (Lrng lo hi) _ (eng_iter_ok _ Hok)) as (F1 & F2 & _).
+  pose proof (seek_least _ _ _ _ (Lrng lo hi) t _ F1 (Xrng lo hi)) as P.
+  rewrite F2 in P. unfold rng_content, b_content in P. rewrite (eng_view _ h I Hl Hok), Eh in P.
+  rewrite (in_bounds_filter lo hi _ (spec_view_strict _)) in P. exact P.
+Qed.
